@@ -21,8 +21,8 @@ import (
 	"bytes"
 	"encoding/json"
 	"fmt"
-	"io"
 	"io/ioutil"
+	"math"
 	"mime"
 	"mime/multipart"
 	"net/http"
@@ -121,36 +121,10 @@ func (s *Modifier) ModifyResponse(res *http.Response) error {
 		return nil
 	}
 
-	rh := res.Request.Header.Get("Range")
-	rh = strings.ToLower(rh)
-	sranges := strings.Split(strings.TrimLeft(rh, "bytes="), ",")
-	var ranges [][]int
-	for _, rng := range sranges {
-		if strings.HasSuffix(rng, "-") {
-			rng = fmt.Sprintf("%s%d", rng, info.Size()-1)
-		}
-
-		rs := strings.Split(rng, "-")
-		if len(rs) != 2 {
-			res.StatusCode = http.StatusRequestedRangeNotSatisfiable
-			return nil
-		}
-		start, err := strconv.Atoi(strings.TrimSpace(rs[0]))
-		if err != nil {
-			return err
-		}
-
-		end, err := strconv.Atoi(strings.TrimSpace(rs[1]))
-		if err != nil {
-			return err
-		}
-
-		if start > end {
-			res.StatusCode = http.StatusRequestedRangeNotSatisfiable
-			return nil
-		}
-
-		ranges = append(ranges, []int{start, end})
+	ranges, ok := parseRange(res.Request.Header.Get("Range"), info.Size())
+	if !ok || len(ranges) == 0 {
+		res.StatusCode = http.StatusRequestedRangeNotSatisfiable
+		return nil
 	}
 
 	// Range request.
@@ -158,18 +132,15 @@ func (s *Modifier) ModifyResponse(res *http.Response) error {
 
 	// Single range request.
 	if len(ranges) == 1 {
-		start := ranges[0][0]
-		end := ranges[0][1]
-		length := end - start + 1
-		seg := make([]byte, length)
+		start := ranges[0].start
+		end := ranges[0].end
+		seg := make([]byte, end-start+1)
 
-		switch n, err := f.ReadAt(seg, int64(start)); err {
-		case nil, io.EOF:
-			res.ContentLength = int64(n)
-		default:
+		if _, err := f.ReadAt(seg, start); err != nil {
 			return err
 		}
 
+		res.ContentLength = int64(len(seg))
 		res.Body = ioutil.NopCloser(bytes.NewReader(seg))
 		res.Header.Set("Content-Range", fmt.Sprintf("bytes %d-%d/%d", start, end, info.Size()))
 
@@ -181,18 +152,14 @@ func (s *Modifier) ModifyResponse(res *http.Response) error {
 	mpw := multipart.NewWriter(&mpbody)
 
 	for _, rng := range ranges {
-		start, end := rng[0], rng[1]
+		start, end := rng.start, rng.end
 		mimeh := make(textproto.MIMEHeader)
 		mimeh.Set("Content-Type", contentType)
 		mimeh.Set("Content-Range", fmt.Sprintf("bytes %d-%d/%d", start, end, info.Size()))
 
-		length := end - start + 1
-		seg := make([]byte, length)
+		seg := make([]byte, end-start+1)
 
-		switch n, err := f.ReadAt(seg, int64(start)); err {
-		case nil, io.EOF:
-			res.ContentLength = int64(n)
-		default:
+		if _, err := f.ReadAt(seg, start); err != nil {
 			return err
 		}
 
@@ -212,6 +179,87 @@ func (s *Modifier) ModifyResponse(res *http.Response) error {
 	res.Header.Set("Content-Type", fmt.Sprintf("multipart/byteranges; boundary=%s", mpw.Boundary()))
 
 	return nil
+}
+
+// byteRange is an inclusive range of byte positions within a representation.
+type byteRange struct {
+	start, end int64
+}
+
+// parseRange resolves the value of a Range header against a representation of size
+// bytes as described in RFC 7233. ok is false if h is not a valid byte-range set.
+// Ranges that cannot be satisfied are dropped and a last byte position beyond the end
+// of the representation is clamped to its final byte, so every returned range lies
+// within [0, size).
+func parseRange(h string, size int64) (ranges []byteRange, ok bool) {
+	const unit = "bytes="
+	h = strings.TrimSpace(h)
+	if len(h) < len(unit) || !strings.EqualFold(h[:len(unit)], unit) {
+		return nil, false
+	}
+
+	for _, spec := range strings.Split(h[len(unit):], ",") {
+		spec = strings.TrimSpace(spec)
+		i := strings.Index(spec, "-")
+		if i < 0 {
+			return nil, false
+		}
+		first, last := strings.TrimSpace(spec[:i]), strings.TrimSpace(spec[i+1:])
+
+		if first == "" {
+			// Suffix range: the last n bytes.
+			n, valid := parseBytePos(last)
+			if !valid {
+				return nil, false
+			}
+			if n == 0 || size == 0 {
+				continue
+			}
+			if n > size {
+				n = size
+			}
+			ranges = append(ranges, byteRange{size - n, size - 1})
+			continue
+		}
+
+		start, valid := parseBytePos(first)
+		if !valid {
+			return nil, false
+		}
+		end := size - 1
+		if last != "" {
+			if end, valid = parseBytePos(last); !valid || start > end {
+				return nil, false
+			}
+			if end > size-1 {
+				end = size - 1
+			}
+		}
+		if start >= size {
+			continue
+		}
+		ranges = append(ranges, byteRange{start, end})
+	}
+
+	return ranges, true
+}
+
+// parseBytePos parses a non-negative decimal byte position. Positions too large for an
+// int64 are reported as the largest int64, which is beyond any representation.
+func parseBytePos(s string) (int64, bool) {
+	if s == "" {
+		return 0, false
+	}
+	for _, c := range s {
+		if c < '0' || c > '9' {
+			return 0, false
+		}
+	}
+	n, err := strconv.ParseInt(s, 10, 64)
+	if err != nil {
+		return math.MaxInt64, true
+	}
+	return n, true
 }
 
 // SetExplicitPathMappings sets an optional mapping of request paths to local
